@@ -17,6 +17,7 @@
 import SeedModel.Parse
 import SeedProofs.ParseProps
 import SeedProofs.Lemmas.ParseRT2Image
+import SeedProofs.Lemmas.LexRTPrint
 namespace Seed.C08
 
 -- audit: Seed.parse_print Seed.left_assoc Seed.tighter_first_lt Seed.tighter_first_gt Seed.range_loosest_right Seed.range_loosest_left Seed.range_left_assoc Seed.neg_literal_operand Seed.neg_literal_after_operand Seed.neg_literal_after_operator Seed.no_unary_minus Seed.parens_override_left Seed.parens_override_right Seed.binOps_tiers Seed.roundtrip_rel Seed.roundtrip_parseExpr
@@ -310,5 +311,134 @@ example : wfStmt true (.OpAssign (v c!"a") .And (0, 0) (n 1)) = false := by deci
 -- `{ }` in statement position is the empty object literal, never a block
 example : parseStmts 200 false [] (spans0 [.BraceOpen, .BraceClose, .StmtEnd]) =
     .ok [.Expr (.mk (.Object []) (0, 0))] [] := by rfl
+
+end Seed.C08
+
+/-! ## Through the lexer: the printed *source text* of a program parses back to the program
+
+  Lemmas/LexRT*.lean (C09 `lex_render`): `renderToks ts` spells a token list as text — every token in its canonical
+  spelling (`renderTok`: symbols and keywords from the generated tables, names, decimal literals, escaped string
+  literals, interpolated literals with their slots, `StmtEnd` as `;`), separated by one blank — and lexing that
+  text gives `ts` back, for tokens satisfying the decidable `TokWF`.  Lemmas/LexRTPrint.lean: `prStmts p` never
+  contains a terminator that the lexer's terminator suppression would drop (`keepAll true (prStmts p)`): a printed
+  statement is non-empty and ends with a name, literal, keyword or closing bracket, never with a continuation
+  token, and a block `{ … }` begins with a statement — so the `.tok` projection of `lexAll` is `prStmts p` itself
+  and `parse_print_prog` applies to it.  The printer is not adapted. -/
+namespace Seed.C08
+open Seed Seed.LexRT
+
+-- audit: Seed.LexRT.prStmts_keepAll Seed.LexRT.prE_keepAll Seed.LexRT.lexAll_printed Seed.LexRT.prR_good Seed.LexRT.prStmt_good Seed.LexRT.prStmts_semi Seed.LexRT.sepBody_good Seed.LexRT.ifTail_opt Seed.LexRT.lexAll_render_keepAll Seed.LexRT.lexAll_render Seed.LexRT.lexRaw_render Seed.LexRT.lexTo_render Seed.LexRT.nextToken_render Seed.LexRT.suppressT_of_keepAll Seed.LexRT.suppress_map_tok
+
+/-- the source text of a program: its printed tokens, spelled and separated by one blank -/
+def printSource (p : List Stmt) : List Char := renderToks (prStmts p)
+
+/-- no statement terminator printed by `prStmts` is one the lexer would suppress: none is first, none follows
+    a terminator or a continuation token (`{ ;`, `; ;`, `= ;` … never occur) — for every program -/
+theorem printed_terminators_survive (p : List Stmt) : keepAll true (prStmts p) = true :=
+  prStmts_keepAll p
+
+/-- the printed source text is lexed without error, and the parser sees exactly the printed tokens -/
+theorem printed_source_tokens (p : List Stmt) (htok : ∀ t ∈ prStmts p, TokWF t) :
+    (lexAll (printSource p)).2 = none ∧ (lexAll (printSource p)).1.map Span.tok = prStmts p :=
+  lexAll_printed p htok
+
+/-- **`front_end_roundtrip`**: for every well-formed program `p` whose tokens are well-formed, the front end
+    `parseProg` (lexer, terminator suppression, parser) applied to the printed source text of `p` returns `p`,
+    up to stored positions -/
+theorem front_end_roundtrip (p : List Stmt) (hwf : wfStmts true p = true) (htok : ∀ t ∈ prStmts p, TokWF t) :
+    ∃ p', parseProg (renderToks (prStmts p)) = .ok p' ∧ stripStmts p' = stripStmts p := by
+  obtain ⟨h1, h2⟩ := lexAll_printed p htok
+  exact roundtrip_parseProg p hwf _ h1 h2
+
+/-- the same for an expression through `parseExprTop` (the front end used for interpolation slots) -/
+theorem front_end_roundtrip_expr (e : Expr) (hwf : wfE true e = true) (htok : ∀ t ∈ prE 1 e, TokWF t) :
+    ∃ e', parseExprTop (renderToks (prE 1 e)) = .ok e' ∧ stripE e' = stripE e := by
+  obtain ⟨h1, h2⟩ := lexAll_render_keepAll (prE 1 e) htok (prE_keepAll e 1)
+  obtain ⟨e', hp, hs⟩ := parse_print_expr e hwf (lexAll (renderToks (prE 1 e))).1 h2
+  refine ⟨e', ?_, hs⟩
+  unfold parseExprTop
+  generalize lexAll (renderToks (prE 1 e)) = lx at h1 hp
+  obtain ⟨ts, le⟩ := lx
+  simp only at h1 hp
+  subst h1
+  simp only [hp]
+
+/-- printing the result of the front end and running the front end again is the identity up to positions:
+    what `parseProg` returns from any source text is reproduced from its own printed source text (provided its
+    tokens are well-formed — they are tokens the lexer produced) -/
+theorem front_end_idempotent {src : List Char} {p : List Stmt} (h : parseProg src = .ok p)
+    (htok : ∀ t ∈ prStmts p, TokWF t) :
+    ∃ p', parseProg (renderToks (prStmts p)) = .ok p' ∧ stripStmts p' = stripStmts p :=
+  front_end_roundtrip p (parseProg_sound h) htok
+
+-- hypotheses satisfiable: the text `src` above is accepted, and the tokens of what is returned are well-formed
+example : (match parseProg src with
+    | .ok p => decide (∀ t ∈ prStmts p, TokWF t)
+    | _ => false) = true := by decide +kernel
+
+private def ex (r : RawExpr) : Expr := .mk r (0, 0)
+
+/-- a program with every token class: all 33 symbols, all 12 keywords, `;`, names, integer literals (a negative
+    one), a string literal with escapes, an interpolated literal with a slot -/
+private def allProg : List Stmt := [
+  .Func c!"f" (0, 0) [v c!"a", v c!"r"] true [.Return (0, 0) (v c!"a")],
+  .Declare (v c!"x") (idx (ex (.List [.mk (n 1) false, .mk (n (-2)) false, .mk (v c!"xs") true] true)) (n 0)),
+  .Declare (v c!"o") (ex (.Object [.Pair (v c!"k") (ex (.Str c!"s\n\"é" none)), .Single (v c!"t") false false,
+    .Single (v c!"u") false true])),
+  .Assign (v c!"y") (bin .Sub (bin .Sum (v c!"a") (v c!"b"))
+    (bin .Mod (bin .Div (bin .Mul (v c!"c") (v c!"d")) (v c!"e")) (v c!"g"))),
+  .Assign (v c!"z") (bin .Or (bin .Eq (v c!"a") (v c!"b")) (bin .And (bin .Ne (v c!"a") (v c!"b"))
+    (bin .Lt (v c!"a") (v c!"b")))),
+  .Assign (v c!"w") (bin .RefNe (bin .RefEq (bin .Lte (v c!"a") (v c!"b")) (bin .Gte (v c!"a") (v c!"b")))
+    (bin .Gt (v c!"a") (ex .Null))),
+  .Assign (v c!"s") (ex (.Str c!"p${x}q$" (some [(1, 5)]))),
+  .Assign (v c!"t") (ex (.RangeIndex (ex (.Call (ex (.Prop (ex (.Prop (v c!"o") c!"k" false)) c!"len" true)) []))
+    (some (n 1)) (some (n 2)))),
+  .OpAssign (v c!"x") .Sum (0, 0) (n 1), .OpAssign (v c!"x") .Sub (0, 0) (n 1), .OpAssign (v c!"x") .Mul (0, 0) (n 2),
+  .OpAssign (v c!"x") .Div (0, 0) (n 2), .OpAssign (v c!"x") .Mod (0, 0) (n 2),
+  .If [.mk (v c!"a") [.Break (0, 0)], .mk (v c!"b") [.Continue (0, 0)]] (some [.Expr (ex .Null)]),
+  .While (ex (.Bool true)) [.Expr (ex (.Bool false))],
+  .For (v c!"i") (ex (.Range (n 0) (n 3))) [.Expr (v c!"i")]]
+
+example : wfStmts true allProg = true := by decide +kernel
+example : ∀ t ∈ prStmts allProg, TokWF t := by decide +kernel
+-- every symbol and keyword occurs in it
+example : ∀ t ∈ ([.BraceClose, .BraceOpen, .BracketClose, .BracketOpen, .Colon, .Comma, .Div, .Dot, .Equals,
+    .GreaterThan, .LessThan, .Mod, .Mul, .ParenClose, .ParenOpen, .Sub, .Sum, .AmpAmp, .BangEquals, .ColonEquals,
+    .DashGreaterThan, .DivEquals, .DotDot, .EqualsEquals, .GreaterThanEquals, .LessThanEquals, .ModEquals,
+    .MulEquals, .PipePipe, .SubEquals, .SumEquals, .EqualsEqualsEquals, .BangEqualsEquals,
+    .Break, .Continue, .Else, .False, .Fn, .For, .If, .In, .Null, .Return, .True, .While, .StmtEnd] : List Token),
+    t ∈ prStmts allProg := by decide +kernel
+example : printSource allProg =
+    c!"fn f ( a , .. r ) { return a ; } ; x := [ 1 , - 2 , .. xs .. ] [ 0 ] ; o := { k : \"s\\n\\\"é\" , t , .. u } ; y = a + b - c * d / e % g ; z = a == b || ( a != b && a < b ) ; w = a <= b === ( a >= b ) !== ( a > null ) ; s = $\"p${x}q\\$\" ; t = o . k -> len ( ) [ 1 : 2 ] ; x += 1 ; x -= 1 ; x *= 2 ; x /= 2 ; x %= 2 ; if a { break ; } else if b { continue ; } else { null ; } ; while true { false ; } ; for i in 0 .. 3 { i ; } ;" := by
+  decide +kernel
+-- the theorem applied …
+example : ∃ p', parseProg (renderToks (prStmts allProg)) = .ok p' ∧ stripStmts p' = stripStmts allProg :=
+  front_end_roundtrip allProg (by decide +kernel) (by decide +kernel)
+-- … and the same fact by evaluation of the model: the front end accepts the printed text and returns a well-formed
+-- program that is printed like `allProg` (hence equal to it up to positions, `print_injective`)
+example : (match parseProg (printSource allProg) with
+    | .ok p' => wfStmts true p' && decide (prStmts p' = prStmts allProg)
+    | _ => false) = true := by decide +kernel
+
+-- an expression: `- 1 .. f ( $"a${x}" ) [ : 2 ]`
+private def exE : Expr :=
+  ex (.Range (n (-1)) (ex (.RangeIndex (ex (.Call (v c!"f") [.mk (ex (.Str c!"a${x}" (some [(1, 5)]))) false])) none
+    (some (n 2)))))
+example : wfE true exE = true ∧ ∀ t ∈ prE 1 exE, TokWF t := by decide +kernel
+example : renderToks (prE 1 exE) = c!"- 1 .. f ( $\"a${x}\" ) [ : 2 ]" := by decide +kernel
+example : ∃ e', parseExprTop (renderToks (prE 1 exE)) = .ok e' ∧ stripE e' = stripE exE :=
+  front_end_roundtrip_expr exE (by decide +kernel) (by decide +kernel)
+
+-- the token hypothesis matters: a variable named like a keyword is printed as the keyword and is not parsed back
+example : wfStmts true [.Expr (v c!"while")] = true ∧ ¬ (∀ t ∈ prStmts [.Expr (v c!"while")], TokWF t) := by
+  decide +kernel
+example : (match parseProg (printSource [.Expr (v c!"while")]) with | .ok _ => true | _ => false) = false := by
+  decide +kernel
+-- the most negative integer has no literal: `- 9223372036854775808` overflows in the lexer (as in the implementation)
+example : wfStmts true [.Expr (n (-9223372036854775808))] = true ∧
+    ¬ (∀ t ∈ prStmts [.Expr (n (-9223372036854775808))], TokWF t) ∧
+    (lexAll (printSource [.Expr (n (-9223372036854775808))])).2 =
+      some (.IntOverflow (1, 3) c!"9223372036854775808") := by decide +kernel
 
 end Seed.C08
